@@ -374,12 +374,12 @@ theorem analyze_depth1 [DecidableEq M] {g : Game P M} (hg : GameOK g) (he : Eval
     {o : Oracle M} (hnc : NoCancel o) (hord : OrderOK o) (p : P) (s : Eng M) (hs : T1 g s) :
     Sat (analyze g cfg o p s) (Exact1 g p) := by
   unfold analyze
-  have hget := ttGet_all (s := { s with loads := 0, evals := 0, sorts := 0, rnds := 0 }) hs (g.hash p)
-  cases hg' : ttGet { s with loads := 0, evals := 0, sorts := 0, rnds := 0 } (g.hash p) with
+  have hget := ttGet_all (s := { s with loads := 0, evals := 0, sorts := 0, rnds := 0, wlog := [] }) hs (g.hash p)
+  cases hg' : ttGet { s with loads := 0, evals := 0, sorts := 0, rnds := 0, wlog := [] } (g.hash p) with
   | error e => exact Sat.error
   | ok te =>
     have hte := hget te hg'
-    show Sat (analyzeFrom g cfg o p (seedOf te) { s with loads := 0, evals := 0, sorts := 0, rnds := 0 }) _
+    show Sat (analyzeFrom g cfg o p (seedOf te) { s with loads := 0, evals := 0, sorts := 0, rnds := 0, wlog := [] }) _
     -- the seed: an exact entry of this position, or nothing
     have hseed : (∃ e, te = some e ∧ e.bound = Facts.exactBound ∧ seedOf te = (1, [e.m], e.value) ∧
           g.over p = false ∧ e.value = negamax g 1 p ∧ ∃ c, g.apply p e.m = .ok c ∧ e.value = -(g.eval c)) ∨
@@ -424,10 +424,10 @@ theorem analyze_depth1 [DecidableEq M] {g : Game P M} (hg : GameOK g) (he : Eval
         exact hs
       · have hov' : g.over p = false := by simpa using hov
         have hroot := pvNode1 hg hb hinj hpr hnc hord (search_leaf g cfg.opts o 14).1 (search_leaf g cfg.opts o 14).2
-          p hov' (he.live p hov') 0 [] { s with loads := 0, evals := 0, sorts := 0, rnds := 0, st := { depth := 1 } } hs
+          p hov' (he.live p hov') 0 [] { s with loads := 0, evals := 0, sorts := 0, rnds := 0, wlog := [], st := { depth := 1 } } hs
         cases hr : pvNode g cfg.opts o true (search g cfg.opts o 14).1 (search g cfg.opts o 14).2 p 0 1 []
             (Facts.minEval - 1) (Facts.maxEval + 1)
-            { s with loads := 0, evals := 0, sorts := 0, rnds := 0, st := { depth := 1 } } with
+            { s with loads := 0, evals := 0, sorts := 0, rnds := 0, wlog := [], st := { depth := 1 } } with
         | error e => exact Sat.error
         | ok r =>
           obtain ⟨ht, hv, m, rest, c, hpv, hap, hvc⟩ := hroot r hr
